@@ -306,3 +306,55 @@ Proof.
     apply (norm_index_lt n i y Hi).
   - apply (slice_positions_in_range n a b c ps H).
 Qed.
+
+(* ---------------------------------------------------------------- run-length encoded batches (count boundaries) *)
+Lemma map_repeat' {A B} (f : A -> B) x n : map f (repeat x n) = repeat (f x) n.
+Proof. induction n as [|n IH]; [reflexivity|]. cbn [repeat map]. rewrite IH. reflexivity. Qed.
+
+Lemma map_expand {A B} (f : A -> B) d rows runs : runs_ok (length rows) runs = true ->
+  map f (expand d rows runs) = expand (f d) (map f rows) runs.
+Proof.
+  intros H. unfold expand. induction runs as [|r runs IH]; [reflexivity|].
+  cbn [runs_ok forallb] in H. apply andb_true_iff in H. destruct H as [H1 H2]. apply Nat.ltb_lt in H1.
+  cbn [flat_map]. rewrite map_app, IH by exact H2. f_equal.
+  rewrite map_repeat'. f_equal. symmetry. apply (nth_map_lt f rows (f d) d), H1.
+Qed.
+
+Lemma expand_default {A} (d d' : A) rows runs : runs_ok (length rows) runs = true -> expand d rows runs = expand d' rows runs.
+Proof.
+  intros H. unfold expand. induction runs as [|r runs IH]; [reflexivity|].
+  cbn [runs_ok forallb] in H. apply andb_true_iff in H. destruct H as [H1 H2]. apply Nat.ltb_lt in H1.
+  cbn [flat_map]. rewrite IH by exact H2. f_equal. f_equal. apply nth_indep, H1.
+Qed.
+
+(* the array of a batch given by runs of repeated rows is the array of the distinct rows, expanded along the same runs;
+   so is its words selection: F is applied per distinct row *)
+Theorem full_F_expand F nW rows runs G : runs_ok (length rows) runs = true ->
+  full_F F nW (expand [] rows runs) G = expand [] (full_F F nW rows G) runs.
+Proof.
+  intros H. unfold full_F at 1. rewrite (map_expand _ [] rows runs H). apply expand_default.
+  unfold full_F. rewrite map_length. exact H.
+Qed.
+
+Theorem select_words_expand nW w v runs : runs_ok (length v) runs = true ->
+  select_words nW w (expand [] v runs) = option_map (fun t => expand_tens t runs) (select_words nW w v).
+Proof.
+  intros H.
+  assert (H3 : forall ps, map (map (fun row : list N => map (fun p => nth p row 0) ps)) (expand [] v runs)
+                          = expand [] (map (map (fun row : list N => map (fun p => nth p row 0) ps)) v) runs).
+  { intros ps. rewrite (map_expand _ [] v runs H). reflexivity. }
+  destruct w as [|i|l|a b c]; cbn [select_words].
+  - destruct (words_positions nW WAll); cbn [option_map expand_tens]; [rewrite H3|]; reflexivity.
+  - destruct (norm_index nW i); cbn [option_map expand_tens]; [|reflexivity].
+    rewrite (map_expand _ [] v runs H). reflexivity.
+  - destruct (words_positions nW (WList l)); cbn [option_map expand_tens]; [rewrite H3|]; reflexivity.
+  - destruct (words_positions nW (WSlice a b c)); cbn [option_map expand_tens]; [rewrite H3|]; reflexivity.
+Qed.
+
+Theorem batches_of_repeated_rows_pf F nW w rows runs G : runs_ok (length rows) runs = true ->
+  select_words nW w (full_F F nW (expand [] rows runs) G)
+  = option_map (fun t => expand_tens t runs) (select_words nW w (full_F F nW rows G)).
+Proof.
+  intros H. rewrite (full_F_expand F nW rows runs G H).
+  apply select_words_expand. unfold full_F. rewrite map_length. exact H.
+Qed.
